@@ -887,6 +887,17 @@ func runScenario(c Case) realResult {
 		if d.Unsure {
 			o.Harness = "a wait ran into the shortened deadline"
 		}
+		if rs.Shape == "send-fail" && o.Harness == "" {
+			// the failure the scenario wants to inject is the NthSend-th send of a round message; a party of a
+			// two-member ECDSA signing sends four (sendFailMaxNth): with a larger number nothing ever failed, the
+			// first attempt simply completed - the scenario was not driven and says nothing about the code
+			polMu.Lock()
+			never := injected == nil
+			polMu.Unlock()
+			if never {
+				o.Harness = "the send the scenario wants to fail never happened: nothing was injected"
+			}
+		}
 		if i == Third && f.cm.countSent(comm.TssStartMsg) < startsBefore+1 && o.Harness == "" {
 			// the left-out holder's case says that the replacement attempt's initiate and start messages were
 			// offered to it; the failing relayer never sent them (that is ITS case's rejection): not driven
@@ -1170,6 +1181,11 @@ func realCases(peers []string, sid string, holders []int, sign string, rs RealSp
 
 // genReal: the scenarios of a run.  The session id is searched so that the session's key order makes
 // the wanted relayer the coordinator of the first attempt.
+// sendFailMaxNth: a party of a two-member ECDSA signing on the fixture shares hands four round messages to
+// Communication.Broadcast (three to its partner, the last one to both members) - a "send-fail" scenario can
+// fail the first to the fourth; a fifth send does not exist (the scenario then abstains, see runScenario).
+const sendFailMaxNth = 4
+
 func genReal(r *vgen.Rng, tier string) []Case {
 	fix := fixturePeers()
 	var out []Case
@@ -1196,11 +1212,11 @@ func genReal(r *vgen.Rng, tier string) []Case {
 	if tier == "thorough" {
 		plans = append(plans,
 			plan{shape: "culprit", sign: "ecdsa", coord: "p", await: true},
-			plan{shape: "send-fail", sign: "ecdsa", coord: "f", nth: r.Range(2, 5), await: true},
+			plan{shape: "send-fail", sign: "ecdsa", coord: "f", nth: r.Range(2, sendFailMaxNth), await: true},
 			plan{shape: "dead-member", sign: "frost", coord: "p", await: true},
 			plan{shape: "culprit", sign: "ecdsa", coord: "f", await: true},
 			plan{shape: "dead-member", sign: "ecdsa", coord: "f", await: true},
-			plan{shape: "send-fail", sign: "ecdsa", coord: "p", nth: r.Range(1, 5), await: true})
+			plan{shape: "send-fail", sign: "ecdsa", coord: "p", nth: r.Range(1, sendFailMaxNth), await: true})
 	} else if r.Bool() {
 		plans[5].coord = "p"
 	}
